@@ -142,35 +142,54 @@ func runC13(c *Checker) {
 	}
 	reg := ls.Pre[crcPhi].(*BV)
 	ctr := ls.Pre[iPhi].(*BV)
-	// counter: starts at 0, +1, loop entered iff i < len(input)
+	// The loop variable may be the index itself (for i := 0; i < len; i++) or
+	// one behind it (range loops: starts at -1, the body uses i+1). In both
+	// cases the byte consumed in an iteration is input[e] with e = i + d.
 	i0, _ := ls.Init[iPhi].(*BV)
-	k0, ok0 := int64(-1), false
-	if i0 != nil {
-		k0, ok0 = i0.ConstInt()
-	}
-	c.check("C13.step", anchor, "counter starts at 0", ok0 && k0 == 0, showVal(ls.Init[iPhi]))
 	inext, _ := ls.Next[iPhi].(*BV)
-	c.check("C13.step", anchor, "counter advances by exactly 1 per byte", inext != nil && sameBV(inext, bvAdd(ctr, constInt(1, ctr.W, ctr.Signed), false)), showVal(ls.Next[iPhi]))
 	inObj := paramObj(ls.Sum, 0)
-	wantCond := bvLt(ctr, inObj.Len)
-	c.check("C13.step", anchor, "body entered iff counter < len(input)", ls.Cond == wantCond, fmt.Sprintf("%s vs %s", ls.Cond, wantCond))
-	// the byte consumed is input[i]
-	item := termBV(mkTerm("cellat:"+inObj.Name+"/", 8, extendBV(ctr, 64, true).Term()), 8, false)
-	wantReg := append([]Bit(nil), reg.Bits...)
-	for k := 7; k >= 0; k-- {
-		wantReg = crcStepAug(wantReg, item.Bits[k])
-	}
 	nreg, _ := ls.Next[crcPhi].(*BV)
-	good, detail := nreg != nil, "non-integer register"
-	if good {
-		for k := 0; k < 32; k++ {
-			if nreg.Bits[k] != wantReg[k] {
-				good = false
-				detail = fmt.Sprintf("register bit %d after one byte is %s, reference is %s", k, nreg.Bits[k], wantReg[k])
-				break
+	okStart, okCond, good := false, false, false
+	detail := "non-integer register"
+	condShown := ""
+	for _, d := range []int64{0, 1} {
+		e := ctr
+		if d != 0 {
+			e = bvAdd(ctr, constInt(d, ctr.W, ctr.Signed), false)
+		}
+		start := false
+		if i0 != nil {
+			if k0, ok := i0.ConstInt(); ok && k0+d == 0 {
+				start = true
 			}
 		}
+		wantCond := bvLt(e, inObj.Len)
+		condShown = fmt.Sprintf("%s vs %s", ls.Cond, wantCond)
+		if !start || ls.Cond != wantCond {
+			continue
+		}
+		okStart, okCond = true, true
+		// the byte consumed is input[e]
+		item := termBV(mkTerm("cellat:"+inObj.Name+"/", 8, extendBV(e, 64, true).Term()), 8, false)
+		wantReg := append([]Bit(nil), reg.Bits...)
+		for k := 7; k >= 0; k-- {
+			wantReg = crcStepAug(wantReg, item.Bits[k])
+		}
+		good = nreg != nil
+		if good {
+			for k := 0; k < 32; k++ {
+				if nreg.Bits[k] != wantReg[k] {
+					good = false
+					detail = fmt.Sprintf("register bit %d after one byte is %s, reference is %s", k, nreg.Bits[k], wantReg[k])
+					break
+				}
+			}
+		}
+		break
 	}
+	c.check("C13.step", anchor, "counter starts at 0", okStart, showVal(ls.Init[iPhi]))
+	c.check("C13.step", anchor, "counter advances by exactly 1 per byte", inext != nil && sameBV(inext, bvAdd(ctr, constInt(1, ctr.W, ctr.Signed), false)), showVal(ls.Next[iPhi]))
+	c.check("C13.step", anchor, "body entered iff counter < len(input)", okCond, condShown)
 	c.check("C13.step", anchor, "one iteration == 8 augmented steps S(reg, input[i].bit 7..0), polynomial 0x04C11DB7", good, detail)
 	// initial register
 	a0, _ := ls.Init[crcPhi].(*BV)
